@@ -93,6 +93,10 @@ def observer(got, pred, sp, call, sg, prog, ctx, part):
                 part['evaluations'] += 1
                 if not compare(have, want, api, V, pt, fn):
                     return
+    # parameters: the callables are built while each parameter holds 1, 0 and its own value (fresh objects each time),
+    # then the parameter is moved: the compiled derivative is a function of the parameter's CURRENT value
+    if ctx.pars:
+        param_step(got, sp, pred['den'], own_names, ctx, part, bad)
     # several expressions: compile_jacobian over the union of their variables (+ rotation)
     if len(rows) > 1:
         pts = reg_points(rows)
@@ -118,6 +122,62 @@ def observer(got, pred, sp, call, sg, prog, ctx, part):
                 part['evaluations'] += 1
                 if not compare(have, want, 'compile_jacobian (multi-row)', V, pt, fn):
                     return
+
+
+def param_step(got, sp, den, names, ctx, part, bad):
+    from fractions import Fraction as Fr
+    from optyx.core import compiler, autodiff
+    from .c01 import _pars
+    from .. import apiexec, apirun
+    pids = set(_pars(den))
+    if not pids or not names or len(names) > 3:
+        return
+    D = {name_of(k): v for k, v in sp['D'].items()}
+    saved = ctx.parobjs
+    try:
+        for init in (Fr(1), Fr(0)):
+            objs = progjudge.build_base(ctx)
+            parobjs = {c['i']: objs[n + 1] for n, c in enumerate(ctx.base_calls) if c['c'] == 'MkPar'}
+            for pid, (h, k, size) in getattr(ctx, 'parvec', {}).items():
+                parobjs[pid] = progjudge.VecElemSetter(objs[h], k)
+            for pid in pids:
+                parobjs[pid].set(float(init))
+            nb = len(ctx.base_calls)
+            e = None
+            for i, c in enumerate(ctx.cur_calls):
+                e = apiexec.execute(c, objs)
+                objs[nb + i + 1] = e
+            vm = apirun.varmap(objs)
+            vars_ = [vm[n] for n in names]
+            try:
+                fns = [('compile_gradient', compiler.compile_gradient(e, vars_)), ('compile_jacobian', autodiff.compile_jacobian([e], vars_)),
+                       ('CompiledExpression.gradient', compiler.CompiledExpression(e, vars_).gradient)]
+            except Exception:
+                return
+            for pid in pids:
+                parobjs[pid].set(float(ctx.pars[pid]))      # back to the declared value: already an update after compiling
+            for pt in ctx.points[:3]:
+                if not interp.regular_for_derivative(den, pt, ctx.pars):
+                    continue
+                try:
+                    want = [progjudge.oracle(D[n], pt, ctx.pars) for n in names]
+                except Irregular:
+                    continue
+                x = np.array([float(pt[n]) for n in names], dtype=float)
+                for what, fn in fns:
+                    try:
+                        have = np.asarray(fn(x), dtype=float).reshape(-1)
+                    except Exception as ex:
+                        bad('%s raises %s after Parameter.set' % (what, type(ex).__name__))
+                        return
+                    part['evaluations'] += 1
+                    for h_, (w, tol) in zip(have, want):
+                        if not interp.close(float(h_), w, max(tol, ctx.looser * (1 + abs(w)))):
+                            bad('%s built while the parameter held %s does not follow Parameter.set' % (what, init),
+                                {'got': [float(v) for v in have], 'expected': [w_ for w_, _ in want], 'point': {k: str(v) for k, v in pt.items()}})
+                            return
+    finally:
+        ctx.parobjs = saved
 
 
 def run(report, tier):
